@@ -188,7 +188,15 @@ func corruptIndexes(r *Rng, sq square.Square) [][]byte {
 		}
 		idx := append([]uint32{}, iw.ShareIndexes...)
 		inner := append([]byte{}, iw.Tx...)
-		switch r.Intn(5) {
+		switch r.Intn(6) {
+		case 5:
+			// index pointing at a compact sequence start (share 0 or the first PFB share) with a declared blob
+			// size just below / at / above what a sparse first share holds (474..479)
+			rgp := share.GetShareRangeForNamespace(sq, share.PayForBlobNamespace)
+			idx[0] = uint32([]int{0, rgp.Start}[r.Intn(2)])
+			if len(inner) >= mockPFBExtraBytes+4 {
+				binary.BigEndian.PutUint32(inner[mockPFBExtraBytes:], uint32(474+r.Intn(6)))
+			}
 		case 0:
 			idx[r.Intn(len(idx))] = uint32(r.Intn(3 * len(raws)))
 		case 1:
